@@ -150,6 +150,16 @@ def shards(tier):
     L = 4 if tier == "quick" else 5
     out = [{"kind": "enum", "L": L, "depth": depth, "part": i, "nparts": n} for i in range(n)]
     out[0]["short"] = True
+    Lc = 4 if tier == "quick" else 6
+    cont = [{"kind": "enum", "alphabet": "containers", "L": Lc, "depth": depth, "part": i, "nparts": n}
+            for i in range(n)]  # fmt: skip
+    cont[0]["short"] = True
+    out += cont
+    La = 6 if tier == "quick" else 7
+    al = [{"kind": "enum", "alphabet": "aliasing", "L": La, "depth": depth, "part": i, "nparts": n}
+          for i in range(n)]  # fmt: skip
+    al[0]["short"] = True
+    out += al
     nrand = 16
     per = 250 if tier == "quick" else 4000
     out += [{"kind": "random", "n": per, "idx": i} for i in range(nrand)]
@@ -161,7 +171,7 @@ def shards(tier):
 def run_shard(spec, seed):
     res = ShardResult()
     if spec["kind"] == "enum":
-        prof = asm.focus_profile()
+        prof = asm.ENUM_PROFILES[spec["alphabet"]]() if spec.get("alphabet") else asm.focus_profile()
         pres = asm.prefixes(prof, spec["depth"])
         mine = pres[spec["part"] :: spec["nparts"]]
 
